@@ -571,19 +571,23 @@ func c02Gen(r *vkit.Run, i int) *c02Case {
 
 func c02(r *vkit.Run) {
 	r.SetRule("configurations at three levels: rr = BalanceRR.Balance(WrrSticky) on 1-6 backends (weights 0..6, some down, string-vs-numeric address order, duplicate addresses only with Init where both entries exist); gslb-sticky = BalanceGslb with one positive-weight sub-cluster and SessionSticky; gslb-sub = 2-5 sub-clusters (weights incl. 0, negative, blackhole with positive weight). Each configuration is built 4 times (listed order + 3 random orderings of sub-clusters and backends) through Init, through BackendReload/Update (map order) or through JSON files read by GslbConfLoad/ClusterTableLoad. Keys: random bytes (rr) or requests for the four HashStrategy values with header / cookie / IPv4 / IPv6 / URI sources; requests without a deterministic key are not generated. The harness computes murmur3_64(key) mod M (M = 100*sum of eligible backend weights, or sum of positive sub-cluster weights) and asks 2 keys per residue class on all 4 instances. Non-trivial = >=2 eligible targets and all M classes covered; distinct = configuration. " +
-		"RELOAD HISTORIES (1000, thorough 20000; rr = BalanceRR Init/Update; gslb-sticky and gslb-sub with SessionSticky = BalanceGslb BackendInit/BackendReload, all four strategies): Init with 1-5 backends per sub-cluster, then 1-4 reloads, per sub-cluster of kind weight / add / remove / replace (k removed, k added, same length, newcomer at the old position or at the end of the text) / mixed / noop-same / noop-reorder, a third of them with the list shuffled, with 0-3 sticky picks after each step (so the list was sorted for sticky selection before the next reload); distinct addresses, weights 0..4, some final backends down. Asserted: every key (2 per residue class of murmur3_64 mod M, padded to >=400 keys) gets the same target (sub-cluster, addr:port, error) on the balancer with the history as on a balancer freshly initialised with the final lists (sticky:history-dependent:<kind of last reload>), and on the balancer with the history each residue class has one target and each target owns M*w/W classes. History non-trivial = >=2 eligible targets and all classes covered; distinct = hash of (final configuration, steps)")
+		"RELOAD HISTORIES (1000, thorough 20000; rr = BalanceRR Init/Update; gslb-sticky and gslb-sub with SessionSticky = BalanceGslb BackendInit/BackendReload, all four strategies): Init with 1-5 backends per sub-cluster, then 1-4 reloads, per sub-cluster of kind weight / add / remove / replace (k removed, k added, same length, newcomer at the old position or at the end of the text) / mixed / noop-same / noop-reorder, a third of them with the list shuffled, with 0-3 sticky picks after each step (so the list was sorted for sticky selection before the next reload); distinct addresses, weights 0..4, some final backends down. Asserted: every key (2 per residue class of murmur3_64 mod M, padded to >=400 keys) gets the same target (sub-cluster, addr:port, error) on the balancer with the history as on a balancer freshly initialised with the final lists (sticky:history-dependent:<kind of last reload>), and on the balancer with the history each residue class has one target and each target owns M*w/W classes. History non-trivial = >=2 eligible targets and all classes covered; distinct = hash of (final configuration, steps). " +
+		"GSLB-CONF RELOAD HISTORIES (800, thorough 16000; c02g.go): the sub-cluster set and weights are reached through Init + 1-5 BalanceGslb.Reload+BackendReload / ReloadAll steps (add / remove zero-weight sub-clusters whose names sort before / after the weighted one, weight changes, the weight moving to another sub-cluster, adding / removing weighted sub-clusters, several weighted -> one), names incl. upper/lower case and GSLB_BLACKHOLE (weight 0, rarely positive), 0-3 picks after each step; two thirds end with exactly ONE positive-weight sub-cluster next to 0-3 zero-weight ones (the single-sub-cluster fast path), sticky (targets = backends) or not (targets = sub-clusters), all four strategies; backend lists per sub-cluster name are constant. Asserted as above: same target (sub-cluster, and backend when sticky) as on a balancer freshly initialised with the final configuration (gslb-reload:history-dependent:<shape>:<kind of last reload>), target eligible, one target per residue class, exact shares. Non-trivial = final configuration with >=2 sub-clusters, all classes covered, >=1 reload that changes the sub-cluster configuration; distinct = hash of (final configuration, steps)")
 	r.Assume("modulus M: backend weights are scaled x100 by BackendRR.Init, sub-cluster weights are not scaled")
 	r.Assume("duplicate addresses are compared by addr:port with summed weights; duplicates through Update (one entry per address survives, order dependent, docs silent) are excluded")
 	if r.Replay != "" {
 		var w struct {
 			Case c02Case      `json:"case"`
 			Hist *c02HistCase `json:"hist"`
+			G    *c02GHist    `json:"ghist"`
 		}
 		if err := r.LoadReplay(&w); err != nil {
 			r.Inconclusive(err.Error())
 			return
 		}
-		if w.Hist != nil {
+		if w.G != nil {
+			c02GHistCheck(r, w.G)
+		} else if w.Hist != nil {
 			c02HistCheck(r, w.Hist)
 		} else {
 			c02Check(r, &w.Case)
@@ -601,6 +605,7 @@ func c02(r *vkit.Run) {
 		}
 	}
 	c02Histories(r)
+	c02GHistories(r)
 }
 
 // ---------------------------------------------------------------------------
